@@ -22,7 +22,7 @@ STRING_PREFIXES = ['', 'b', 'B', 'r', 'R', 'u', 'U', 'f', 'F', 'rb', 'bR', 'Rb',
 NUMBERS = ['0', '1', '10', '1_0', '0_0', '1__0', '1_', '0x1f', '0X_f', '0o17', '0O8', '0b101',
            '0B2', '1.', '.5', '1.5', '1e5', '1E-5', '1.e5j', '1j', '1J', '0_7', '07', '1e', '0x',
            '1_000.000_1', '1if', '1_a', '1.0_', '0xg', '1e+']
-NAMES = ['x', 'y', 'foo', 'a1', '_', '__x__', 'é', 'Ünï', '名前', '²', 'x²', 'ª', 'á',
+NAMES = ['x', 'y', 'foo', 'l', 'O', 'I', 'a1', '_', '__x__', 'é', 'Ünï', '名前', '²', 'x²', 'ª', 'á',
          ' ', 'x\xa0y', 'self', 'cls', 'Async', 'match', 'case', 'type', '_soft']
 LAYOUT = [' ', '  ', '    ', '        ', '\t', ' \t', '\t ', '\f', '\n', '\r\n', '\r', '\n\n',
           '\\\n', '\\\r\n', '\\\r', '\\', '\\ \n', ' \\\n  ', '\n    ', '\n  ', '\n\t', '\n ']
